@@ -420,16 +420,28 @@ class HTTP1Connection(httputil.HTTPConnection):
                 # No need to chunk the output if a Content-Length is specified.
                 and "Content-Length" not in headers
             )
+            # A body that is delimited neither by chunked encoding nor by
+            # Content-Length can only be terminated by closing the connection.
+            if (
+                not self._chunking_output
+                and "Content-Length" not in headers
+                and self._request_start_line.method != "HEAD"
+                and start_line.code not in (204, 304)
+                and (start_line.code < 100 or start_line.code >= 200)
+            ):
+                self._disconnect_on_finish = True
             # If connection to a 1.1 client will be closed, inform client
             if (
                 self._request_start_line.version == "HTTP/1.1"
                 and self._disconnect_on_finish
             ):
                 headers["Connection"] = "close"
-            # If a 1.0 client asked for keep-alive, add the header.
+            # If a 1.0 client asked for keep-alive, add the header
+            # (unless we are going to close the connection anyway).
             if (
                 self._request_start_line.version == "HTTP/1.0"
                 and self._request_headers.get("Connection", "").lower() == "keep-alive"
+                and not self._disconnect_on_finish
             ):
                 headers["Connection"] = "Keep-Alive"
         if self._chunking_output:
